@@ -76,6 +76,7 @@ def run(chk, tier):
         prog = mir.Program(data)
         cross_config(chk, ref, ref_fp, ref_tables, prog, "docs" in feats, "bit-vec" in feats)
         c06.check_writer(chk, prog, prog.config)
+        docs_blind_identity(chk, prog, prog.config)
         if "docs" in feats:
             # "docs changes documentation strings only": the docs-gated setters may differ, but only in the docs slot
             c17.transitions(chk, prog, prog.config, True)
@@ -85,6 +86,103 @@ def run(chk, tier):
     chk.count("configurations_compared", n)
     chk.floor("R15.2", n, 4 if tier == "quick" else 60, "configurations compared with the reference")
     chk.trusted += ["dependency features do not change leaf encodings", "cargo feature unification"]
+
+
+# ----------------------------------------------------------------------------------- R15.4
+CMP_TRAITS = ("core::cmp::PartialEq", "core::cmp::Eq", "core::cmp::PartialOrd", "core::cmp::Ord", "core::hash::Hash")
+KEYED = ("scale_info::interner::Interner", "alloc::collections::btree::map::BTreeMap", "alloc::collections::btree::set::BTreeSet",
+         "std::collections::hash::map::HashMap", "std::collections::hash::set::HashSet", "hashbrown::map::HashMap", "hashbrown::set::HashSet",
+         "alloc::collections::btree::map::entry", "std::collections::hash::map::Entry")
+ELEMENT_CMP = ("contains", "dedup", "sort", "sort_unstable", "binary_search", "starts_with", "ends_with", "strip_prefix", "strip_suffix")
+
+
+def holds(prog, ix, pred):
+    """does a VALUE of type `ix` contain (by generic argument / reference / tuple / array; not behind a fn pointer) a value satisfying pred?"""
+    t = prog.types[ix]
+    if pred(t):
+        return True
+    if t["k"] in ("fnptr", "fndef", "closure"):
+        return False
+    subs = [a for key in ("a", "ts") for a in (t.get(key) or []) if isinstance(a, int)]
+    if isinstance(t.get("t"), int):
+        subs.append(t["t"])
+    return any(holds(prog, x, pred) for x in subs)
+
+
+def docs_bearing(prog):
+    """model ADTs that (transitively) contain a `docs` field"""
+    have = {p for p, a in prog.adts.items() if p.startswith("scale_info::") and any(f["name"] == "docs" for v in a["variants"] for f in v["fields"])}
+    changed = True
+    while changed:
+        changed = False
+        for p, a in prog.adts.items():
+            if p in have or not p.startswith("scale_info::"):
+                continue
+            if any(holds(prog, f["ty"], lambda t: t["k"] == "adt" and t["d"] in have) for v in a["variants"] for f in v["fields"]):
+                have.add(p)
+                changed = True
+    return have
+
+
+def pipeline_slice(prog):
+    roots = []
+    for p in prog.fns:
+        sp = mir.strip_generics(p)
+        if sp.startswith("scale_info::registry::Registry::") or sp.startswith("scale_info::meta_type::MetaType::") \
+                or sp.startswith("scale_info::interner::Interner::"):
+            roots.append(p)
+    for imp in prog.impls:
+        if imp["trait"] in ("scale_info::registry::IntoPortable", "core::convert::From"):
+            st = prog.types[imp["self_ty"]]
+            if imp["trait"] == "core::convert::From" and not (st["k"] == "adt" and st["d"] == "scale_info::portable::PortableRegistry"):
+                continue
+            roots += [it["path"] for it in imp["items"] if it.get("path") in prog._bodies_raw]
+    work, seen, members = list(roots), set(), []
+    while work:
+        p = work.pop()
+        if p in seen:
+            continue
+        seen.add(p)
+        b = prog.body(p)
+        if b is None:
+            continue
+        members.append(p)
+        work += prog.closures_by_root.get(p, [])
+        for bb, t in b.calls():
+            for tgt in (t.get("resolved"), t.get("callee")):
+                if tgt in prog._bodies_raw:
+                    work.append(tgt)
+    return members
+
+
+def docs_blind_identity(chk, prog, cfg):
+    chk.rule("R15.4", "the describing pipeline (Registry registration, IntoPortable conversions, From<Registry> for PortableRegistry and what they call) never "
+             "compares, orders, hashes or keys a collection by a value that contains a `docs` field: were it to, the docs feature (which empties or "
+             "fills those fields) would decide which types coincide, hence their number, positions and ids")
+    have = docs_bearing(prog)
+    pred = lambda t: t["k"] == "adt" and t["d"] in have
+    members = pipeline_slice(prog)
+    bad = 0
+    for p in members:
+        b = prog.body(p)
+        for bb, t in b.calls():
+            callee = t.get("callee") or ""
+            gs = [g for g in t.get("gargs", []) if isinstance(g, int)]
+            why = None
+            if t.get("trait") in CMP_TRAITS and gs and holds(prog, gs[0], pred):
+                why = "%s on %s" % (t["trait"].split("::")[-1], prog.ty_s(gs[0]))
+            else:
+                base = mir.strip_generics(callee)
+                if any(base.startswith(k + "::") for k in KEYED) and gs and holds(prog, gs[0], pred):
+                    why = "collection keyed by %s (%s)" % (prog.ty_s(gs[0]), base.split("::")[-1])
+                elif base.split("::")[-1] in ELEMENT_CMP and (base.startswith("alloc::") or base.startswith("core::")) and gs and holds(prog, gs[0], pred):
+                    why = "%s over elements of type %s" % (base.split("::")[-1], prog.ty_s(gs[0]))
+            if why:
+                bad += 1
+                chk.fail("R15.4", "docs-keyed:%s:%s" % (mir.strip_generics(p), mir.strip_generics(callee).split("::")[-1]), b.where(bb), why, cfg)
+    chk.count("pipeline_bodies[%s]" % cfg, len(members))
+    chk.expect(bad == 0 and len(members) >= 30, "R15.4", "pipeline:docs-blind", None,
+               "%d bodies in the describing pipeline, %d docs-bearing model types, %d docs-sensitive comparisons" % (len(members), len(have), bad), cfg)
 
 
 # ----------------------------------------------------------------------------------- R15.1
